@@ -180,6 +180,7 @@ class RealScenario(Scenario):
         cls = IncrementalSage if cfg["explainer"] == "sage" else IncrementalPFI
         self.e = cls(model_fn, self.loss.as_argument(), self.names, **kw)
         self.t = 0
+        self.n_inner_now = cfg["n_inner"]
         self.pending = None
         self.clock.reset()
 
@@ -192,6 +193,10 @@ class RealScenario(Scenario):
             self.pending = None
         if x is None:
             x, y = self.next_obs()
+        ri = self.cfg.get("reassign_inner")
+        if ri and self.t == ri[0]:
+            self.e.n_inner_samples = ri[1]
+            self.n_inner_now = ri[1]
         self.clock.reset()
         if self.cfg.get("keyword_call"):
             ret = self.e.explain_one(x_i=x, y_i=y, **kw)
